@@ -92,8 +92,10 @@ Definition e37_step (s : sess) (e : sevent) : option (sess * list sout) :=
     | Selected =>
       (* a primary of the peer is delivered even if its system bytes (chosen by the peer) equal those of an open transaction of ours;
          only a secondary (even function, no W-bit) or an S9 error report can be the reply to that transaction *)
+      (* and only to a DATA transaction: an open Select, Deselect or Linktest request is answered by its control response, a data message
+         with its system bytes is a message for the application (D77) *)
       if wellformed
-      then if any_waiting s system && negb w
+      then if is_waiting s system ST_DATA && negb w
            then Some ({| st := Selected; waiting := drop s system; closing := closing s |}, [OutResolve system])
            else Some (s, [OutDeliver system])
       else None
